@@ -79,6 +79,7 @@ def work(tasks, idx):
             kw["tpm_name_alg"] = TPM_NAME_ALGS[variant % 4]
             vendor = kw["tpm_vendor"] = simtpm.TCG_VENDOR_IDS[variant % len(simtpm.TCG_VENDOR_IDS)]
             kw["tpm_san_extra_dnsname_first"] = variant % 5 == 2     # an extra dNSName before the directoryName is still conformant
+            kw["tpm_eku_extra"] = [None, "first", "last", None][variant % 4]   # the EKU extension "MUST contain" the AIK purpose
         if fmt in attest.CHAIN_FORMATS and fmt != "fido-u2f":
             kw["n_intermediates"] = variant % 3
         if fmt in attest.CHAIN_FORMATS and fmt != "android-key" and variant % 5 in (1, 3):
